@@ -67,7 +67,7 @@ def drain(gen, hook=None):
     return state.result if state is not None else None
 
 
-def calls(t, probes, extra_weids=(999983,)):
+def calls(t, probes, extra_weids=(999983,), lite=False):
     """Yield (name, thunk(hook)) for the whole battery.  The list of webentities
     and pages is read from the index itself so two indexes get the same calls."""
     pages = sorted(l for _, l in t.pages_iter())
@@ -178,13 +178,36 @@ def walk_links(t, w, ps, c, ii, io, hook=None):
     raise RuntimeError("pagination does not terminate")
 
 
-def run(t, probes, around=None, foreign=None):
+LITE_SKIP = ("get_webentity_pages_iter", "get_webentity_crawled_pages_iter", "children_iter", "pagelinks_iter", "outlinks_iter",
+             "inlinks_iter", "network_iter", "network_slow_iter", "get_webentities_inlinks_iter", "get_webentities_outlinks_iter",
+             "most_linked default", "page_nodes_iter", "expand_prefix", "get_page_links in", "get_page_links out")
+
+
+def lite_keep(name):
+    if name.startswith(LITE_SKIP):
+        return False
+    if name.startswith("paginate_pages") and not (" k=2 " in name or " k=None " in name):
+        return False
+    if name.startswith("paginate_pagelinks") and " c=1 " not in name:
+        return False
+    if name.startswith("pagelinks ") and not name.endswith(("111", "010")):
+        return False
+    if name.startswith("most_linked") and not name.endswith("3 None"):
+        return False
+    if name.startswith("network") and "auto=True" in name and "out=False" in name:
+        return False
+    return True
+
+
+def run(t, probes, around=None, foreign=None, lite=False):
     """Execute the battery.  Returns (answers dict, counts).  `around(name, thunk)`
     may wrap each call (read-only window monitor); exceptions become part of the
     answer: TraphException as ('refused',), anything else as ('EXC', type)."""
     answers = {}
     n_ok = n_refused = n_exc = 0
     for name, thunk in calls(t, probes):
+        if lite and not lite_keep(name):
+            continue
         try:
             if around is not None:
                 v = around(name, thunk)
